@@ -16,6 +16,7 @@ package nutsdb
 
 import (
 	"errors"
+	"io"
 	"os"
 
 	mmap "github.com/xujiajun/mmap-go"
@@ -80,8 +81,15 @@ func (mm *MMapRWManager) WriteAt(b []byte, off int64) (n int, err error) {
 func (mm *MMapRWManager) ReadAt(b []byte, off int64) (n int, err error) {
 	if mm.m == nil {
 		return 0, ErrUnmappedMemory
-	} else if off >= int64(len(mm.m)) || off < 0 {
+	} else if off > int64(len(mm.m)) || off < 0 {
 		return 0, ErrIndexOutOfBound
+	} else if off == int64(len(mm.m)) {
+		// Reading at the very end of the mapped region behaves like os.File.ReadAt:
+		// an empty read succeeds, anything else reports io.EOF.
+		if len(b) == 0 {
+			return 0, nil
+		}
+		return 0, io.EOF
 	}
 
 	return copy(b, mm.m[off:]), nil
